@@ -9,8 +9,8 @@ from .check_argkey import rand_value, LEAVES
 from .common import Report, Scratch, rng
 
 QN = {"s1": "va::verif_args:s1#1", "s2": "va::verif_args:s2#1", "s3": "va::verif_args:s3#1", "s4": "va::verif_args:s4#1",
-      "target": "va::verif_args:target#7"}
-PARAMS = {"s1": ["a"], "s2": ["a", "b"], "s3": ["a", "b", "k"], "s4": ["x", "y", "z"], "target": ["p", "q"]}
+      "target": "va::verif_args:target#7", "ext": "va::gone.module:helper#9"}
+PARAMS = {"s1": ["a"], "s2": ["a", "b"], "s3": ["a", "b", "k"], "s4": ["x", "y", "z"], "target": ["p", "q"], "ext": ["p", "q"]}
 RTYPES = ["null", "boolean", "string", "number", "list_result", "dictionary", "exception", "data_frame", "partition", "timestamp"]
 TIMES = ["2021-03-04T05:06:07.000008+00:00", "2021-03-04T05:06:07+00:00", "2021-03-04T05:06:07", "2021-03-04T05:06:07.500000+05:30",
          "2020-02-29T00:00:00+00:00", "1999-12-31T23:59:59.999999-03:00"]
@@ -46,7 +46,7 @@ def term(s):
     if t == "dict":
         return {"t": "dict", "es": [{"k": k, "v": term(v)} for k, v in s["v"]]}
     if t == "fnref":
-        return dict(fnref_term({"name": "target", "pargs": s.get("pargs", []), "pkw": s.get("pkw", [])}), t="fnref")
+        return dict(fnref_term({"name": "ext" if s.get("ext") else "target", "pargs": s.get("pargs", []), "pkw": s.get("pkw", [])}), t="fnref")
     raise ValueError(t)
 
 
@@ -65,8 +65,21 @@ FINITE_LEAVES = [x for x in LEAVES if not (x["t"] == "float" and x["v"] in ("nan
 _POOL = [None]
 
 
+def mark_ext(r, v):
+    """some function references among the argument values point at a function this process cannot resolve"""
+    if v["t"] == "fnref" and r.random() < 0.4:
+        v["ext"] = True
+    elif v["t"] == "list":
+        for x in v["v"]:
+            mark_ext(r, x)
+    elif v["t"] == "dict":
+        for _, x in v["v"]:
+            mark_ext(r, x)
+    return v
+
+
 def rv(r, depth):
-    return rand_value(r, depth, _POOL[0])
+    return mark_ext(r, rand_value(r, depth, _POOL[0]))
 
 
 def rand_fwa(r, depth=2):
